@@ -239,7 +239,8 @@ ApplySuffix(tv, s) ==
               [] s = "floor" -> TV(tv.ty, FloorQ(tv.n, tv.d), 1)
               [] s = "ceil"  -> TV(tv.ty, 0 - FloorQ(0 - tv.n, tv.d), 1)
               [] s = "round" -> TV(tv.ty, (IF tv.n < 0 THEN 0 - 1 ELSE 1) * ((2 * Abs(tv.n) + tv.d) \div (2 * tv.d)), 1)
-              [] s = "pow2"  -> TV(tv.ty, tv.n * tv.n, tv.d * tv.d)
+              [] s = "pow2"  -> IF Abs(tv.n) <= 1000 /\ tv.d <= 1000 THEN TV(tv.ty, tv.n * tv.n, tv.d * tv.d)
+                                ELSE AnyTV      \* keeps every value exact in f32 (and in TLC's integers)
               [] s = "sqrt"  -> SqrtTV(tv)
               [] s = "is_nan" -> TV("bool", 0, 1)
   ELSE IF s = "to_string"
